@@ -115,8 +115,39 @@ def replay_file(path):
         # an intermediate cut obligation (`cut:` prefix) has no run-time counterpart: its
         # counterexample is reproduced when a postcondition clause fails on the real code
         reproduced = (clause in failed) or (clause.startswith('cut:') and bool(failed))
-    return {'reproduced': bool(reproduced), 'status': status, 'failed_clauses': failed, 'exception': exc,
-            'clauses_evaluated': [n for n, _ in ctx.results], 'inputs_missing': ctx.missing[:10]}
+    res = {'reproduced': bool(reproduced), 'status': status, 'failed_clauses': failed, 'exception': exc,
+           'clauses_evaluated': [n for n, _ in ctx.results], 'inputs_missing': ctx.missing[:10]}
+    if reproduced:
+        return res
+    # The counter-model interprets the uninterpreted symbols (cos/sin atoms, sqrt witnesses, callee
+    # contracts) freely, so its inputs need not fail on the real code (e.g. an angle of 0 with
+    # cos = 0.6).  Search near it: re-draw random subsets of the real inputs, keep the others (the
+    # ones the path condition forces, such as origin == 0) -- a failing input found this way is a
+    # failure of the real code on the same clause, nothing is inferred from not finding one.
+    seed = int(os.environ.get('VERIF_SEED', '0') or 0)
+    base = dict(doc['inputs'])
+    names = sorted(k for k, v in base.items() if isinstance(v, float) or (isinstance(v, int) and not isinstance(v, bool)))
+    tried = 0
+    for i in range(80 if names else 0):
+        rng = random.Random(hash((seed, 'near', doc.get('obligation', ''), i)) & 0xffffffff)
+        inp = dict(base)
+        prob = (0.15, 0.3, 0.6)[i % 3]
+        for k in names:
+            if isinstance(base[k], float) and rng.random() < prob:
+                inp[k] = rng.choice([rng.uniform(-2, 2), rng.uniform(-200, 200), float(rng.randint(-3, 3))])
+        c2 = dsl.ConcContext(inp, ct)
+        st2, failed2, exc2 = run_once(ct, c2)
+        if st2 == 'vacuous':
+            continue
+        tried += 1
+        hit = (st2 == 'exception') if doc.get('kind') == 'noexc' else \
+            ((clause in failed2) or (clause.startswith('cut:') and bool(failed2)))
+        if hit:
+            return {'reproduced': True, 'status': st2, 'failed_clauses': failed2, 'exception': exc2,
+                    'search': 'counter-model did not fail as given; failing input found by re-drawing inputs near it (%d tried)' % tried,
+                    'inputs': inp}
+    res['search'] = 'counter-model did not fail as given; %d nearby inputs tried, none failed' % tried
+    return res
 
 
 def bounded(prop, n, seed, all_failures=False):
